@@ -11,27 +11,34 @@ open EdbVerif.Gen.Card EdbVerif.Card
 def getKeys (db : DB) (p : Nat) : List Nat :=
   (db.ptrs.filter (fun e => e.1.1 == p)).map (·.1.2)
 
-def checkObj (db : DB) (p : Nat) (d : PtrDecl) (o : Nat × Nat) : Bool :=
-  o.2 != d.srcTy ||
+def checkObj (sch : Schema) (db : DB) (p : Nat) (d : PtrDecl) (o : Nat × Nat) : Bool :=
+  !(sch.lineage d.srcTy).contains o.2 ||
     (decide (γ d.card (db.get p o.1).length) &&
       (match d.link with
        | some t => (db.get p o.1).all (fun v => match v with
-           | .obj i => db.objs.contains (i, t)
+           | .obj i => db.objs.any (fun o' => o'.1 == i && (sch.lineage t).contains o'.2)
            | _ => false)
        | none => true))
 
-def checkPtr (db : DB) (p : Nat) (d : PtrDecl) : Bool :=
-  db.objs.all (checkObj db p d) &&
+def checkPtr (sch : Schema) (db : DB) (p : Nat) (d : PtrDecl) : Bool :=
+  db.objs.all (checkObj sch db p d) &&
   ((!d.link.isSome && !d.exclusive) || (getKeys db p).all (fun id => decide (db.get p id).Nodup)) &&
   (!d.exclusive || (getKeys db p).all (fun id => (getKeys db p).all (fun id' =>
       id == id' || (db.get p id).all (fun v => !(db.get p id').contains v))))
 
+/-- the given descendant lists are transitively closed -/
+def checkTrans (sch : Schema) : Bool :=
+  (List.range sch.descs.length).all (fun t =>
+    ((sch.descs[t]?).getD []).all (fun d =>
+      ((sch.descs[d]?).getD []).all (fun e => ((sch.descs[t]?).getD []).contains e)))
+
 def checkDB (sch : Schema) (db : DB) : Bool :=
+  checkTrans sch &&
   decide ((db.objs.map (·.1)).Nodup) &&
   (List.range sch.ptrs.length).all (fun p =>
     match sch.ptr? p with
     | none => true
-    | some d => checkPtr db p d)
+    | some d => checkPtr sch db p d)
 
 theorem get_ne_nil_mem_keys (db : DB) (p id : Nat) (h : db.get p id ≠ []) : id ∈ getKeys db p := by
   unfold DB.get at h
@@ -49,34 +56,59 @@ theorem ptr?_lt {sch : Schema} {p : Nat} {d : PtrDecl} (h : sch.ptr? p = some d)
   unfold Schema.ptr? at h
   exact (List.getElem?_eq_some_iff.1 h).1
 
+theorem checkTrans_sound (sch : Schema) (h : checkTrans sch = true) :
+    ∀ t d e, d ∈ sch.lineage t → e ∈ sch.lineage d → e ∈ sch.lineage t := by
+  intro t d e hd he
+  unfold checkTrans at h
+  simp only [List.all_eq_true, List.mem_range, List.contains_eq_mem, decide_eq_true_eq] at h
+  unfold Schema.lineage at *
+  rcases List.mem_cons.1 hd with rfl | hd
+  · exact he
+  · rcases List.mem_cons.1 he with rfl | he
+    · exact List.mem_cons_of_mem _ hd
+    · have hlt : t < sch.descs.length := by
+        rcases Nat.lt_or_ge t sch.descs.length with hlt | hge
+        · exact hlt
+        · have : sch.descs[t]? = none := List.getElem?_eq_none hge
+          simp [this] at hd
+      exact List.mem_cons_of_mem _ (h t hlt d hd e he)
+
 theorem checkDB_sound (sch : Schema) (db : DB) (h : checkDB sch db = true) : Conforms sch db := by
   unfold checkDB at h
   simp only [Bool.and_eq_true, decide_eq_true_eq, List.all_eq_true, List.mem_range] at h
-  obtain ⟨hids, hp⟩ := h
-  have hptr : ∀ p d, sch.ptr? p = some d → checkPtr db p d = true := by
+  obtain ⟨⟨htr, hids⟩, hp⟩ := h
+  have hptr : ∀ p d, sch.ptr? p = some d → checkPtr sch db p d = true := by
     intro p d hpd
     have := hp p (ptr?_lt hpd)
     simpa [hpd] using this
-  refine ⟨hids, ?_, ?_, ?_, ?_⟩
-  · intro p d id hpd hid
+  refine ⟨hids, checkTrans_sound sch htr, ?_, ?_, ?_, ?_⟩
+  · intro p d id ty hpd hid hty
     have := hptr p d hpd
     simp only [checkPtr, Bool.and_eq_true, List.all_eq_true] at this
-    have ho := this.1.1 (id, d.srcTy) hid
-    simp only [checkObj, bne_self_eq_false, Bool.false_or, Bool.and_eq_true, decide_eq_true_eq] at ho
-    exact ho.1
-  · intro p d t id hpd hl hid v hv
+    have ho := this.1.1 (id, ty) hid
+    simp only [checkObj, Bool.or_eq_true, Bool.not_eq_eq_eq_not, Bool.not_true, List.contains_eq_mem,
+      decide_eq_false_iff_not, Bool.and_eq_true, decide_eq_true_eq] at ho
+    rcases ho with ho | ho
+    · exact absurd hty ho
+    · exact ho.1
+  · intro p d t id ty hpd hl hid hty v hv
     have := hptr p d hpd
     simp only [checkPtr, Bool.and_eq_true, List.all_eq_true] at this
-    have ho := this.1.1 (id, d.srcTy) hid
-    simp only [checkObj, bne_self_eq_false, Bool.false_or, Bool.and_eq_true, hl, List.all_eq_true] at ho
-    have hv' := ho.2 v hv
-    cases v with
-    | obj i =>
-      simp only [List.contains_eq_mem, decide_eq_true_eq] at hv'
-      exact ⟨i, rfl, hv'⟩
-    | int _ => simp at hv'
-    | unit => simp at hv'
-    | pair _ _ => simp at hv'
+    have ho := this.1.1 (id, ty) hid
+    simp only [checkObj, Bool.or_eq_true, Bool.not_eq_eq_eq_not, Bool.not_true, List.contains_eq_mem,
+      decide_eq_false_iff_not, Bool.and_eq_true, hl, List.all_eq_true] at ho
+    rcases ho with ho | ho
+    · exact absurd hty ho
+    · have hv' := ho.2 v hv
+      cases v with
+      | obj i =>
+        simp only [List.any_eq_true, Bool.and_eq_true, beq_iff_eq, decide_eq_true_eq] at hv'
+        obtain ⟨o', ho', h1, h2⟩ := hv'
+        refine ⟨i, o'.2, t, rfl, ?_, by simp, h2⟩
+        rw [← h1]; exact ho'
+      | int _ => simp at hv'
+      | unit => simp at hv'
+      | pair _ _ => simp at hv'
   · intro p d id hpd hl
     have := hptr p d hpd
     simp only [checkPtr, Bool.and_eq_true, Bool.or_eq_true, Bool.not_eq_eq_eq_not, Bool.not_true,
